@@ -311,8 +311,9 @@ package shimagent
 //@     invariant mapdom(s.certs) == entry(mapdom(s.certs)) && mapval(s.certs) == entry(mapval(s.certs))
 //@     invariant certsNonNil(s)
 //@     invariant forall(j, 0 <= j && j < len(keysInAgent), keysInAgent[j] != nil && akBlob(keysInAgent[j]) == blobid(asKey(keysInAgent[j])))
-//@     invariant [no-hidden-upstream-certificate-is-listed] forall(i, 0 <= i && i < len(keys), keys[i] != nil &&
-//@       ((s.noUpstreamSSHCACert && hiddenBlob(akBlob(keys[i]))) ==> (sha(akBlob(keys[i])) in dom(s.certs))))
+//@     invariant forall(i, 0 <= i && i < len(keys), keys[i] != nil)
+//@     invariant entry(len(keys)) <= len(keys) && forall(i, 0 <= i && i < entry(len(keys)), sha(akBlob(keys[i])) in dom(s.certs))
+//@     invariant [no-hidden-upstream-certificate-is-listed] forall(i, entry(len(keys)) <= i && i < len(keys), s.noUpstreamSSHCACert ==> !hiddenBlob(akBlob(keys[i])))
 //@     invariant [visible-upstream-identities-stay-listed] forall(j, 0 <= j && j <= rangeindex,
 //@       (!(certBlob(blobid(asKey(keysInAgent[j]))) && parseOKid(blobid(asKey(keysInAgent[j])))) ||
 //@        (!(sha(blobid(asKey(keysInAgent[j]))) in dom(s.upstreamSSHCACertCache)) && !(s.noUpstreamSSHCACert && hiddenBlob(blobid(asKey(keysInAgent[j])))))) ==>
